@@ -1,10 +1,12 @@
 import Driver.Cast
 import Driver.Page
+import Driver.Hash
 
 def dispatch (line : String) : String :=
   match (line.trimAscii.toString.splitOn " ").filter (· ≠ "") with
   | "cast" :: rest => Driver.Cast.handle rest
   | "page" :: rest => Driver.Page.handle rest
+  | "hash" :: rest => Driver.Hash.handle rest
   | _ => "bad-op"
 
 partial def loop (hin hout : IO.FS.Stream) : IO Unit := do
